@@ -477,6 +477,10 @@ def plan_for(prop, tier, seed, replay_file=None):
     if prop == 'C02':
         # annotations that list the same data item twice
         extra = [gen_job('remove_p14', 'remove', 14, depth=2 if tier == 'quick' else 3, style=(seed + 2) % 5, MaxAnns=10, MaxRes=2, MaxData=4),
+                 # removal by query (DELETE)
+                 gen_job('delete_p6', 'delete', 6, depth=1, style=(0, 2, 3)[seed % 3], per_state=False, MaxAnns=10, MaxRes=3, MaxData=4),
+                 gen_job('delete_p5', 'delete', 5, depth=1, style=(2, 3, 0)[seed % 3], per_state=False, MaxAnns=10, MaxRes=3, MaxData=4),
+                 gen_job('delete_p10', 'delete', 10, depth=1, style=(3, 0, 2)[seed % 3], per_state=False, MaxAnns=10, MaxRes=3, MaxData=8, MaxSets=2, MaxKeys=4),
                  # a key without data that annotations target
                  gen_job('remove_p18', 'remove', 18, depth=2 if tier == 'quick' else 3, style=(seed + 3) % 5, MaxAnns=10, MaxRes=2, MaxData=4, MaxKeys=5)]
         return dict(jobs=store_jobs(prop, tier, seed) + extra, rule=STORE_RULE, assumptions=STORE_ASSUMPTIONS)
